@@ -5,8 +5,8 @@
    AST_SHADOW items in source order.  A test whose function body or whose own body "contains extern calls"
    (contains_extern_calls, a syntactic scan) is SKIPPED: not executed, not counted, cannot fail.  The core fragment has
    no extern functions, so the scan's verdict is an input here ([sh_skip]).  For every other test the per-test failure
-   counter is reset, the body is evaluated ON THE SAME STACK the previous tests left behind, and the test fails iff
-   the counter is non-zero afterwards; all_passed is the conjunction.  Assertion failures do not stop a test.
+   counter is reset, the body (a block: its symbols are popped when it ends, fix 9481a65) is evaluated on the shared
+   stack, and the test fails iff the counter is non-zero afterwards; all_passed is the conjunction.  Assertion failures do not stop a test.
    Driver: phases 1-4 (lex, parse, imports, type check) -> phase 5 -> phases 6-7 (transpile, cc).  Phase 5 failing:
    "Shadow tests failed" on stderr, return 1 before any C is generated, nothing is written at the -o path.
    A pre-existing file at the output path is outside the model.
@@ -43,7 +43,7 @@ Fixpoint run_tests (fns : list fn) (fuel : nat) (shs : list shadow) (stk : istac
       else
         match iexec fns fuel (sh_body sh) (fresh_world stk) with
         | IOk _ w =>
-            match run_tests fns fuel r (w_stk w) with
+            match run_tests fns fuel r (truncate (length stk) (w_stk w)) with
             | TDone rs sk s' => TDone ({| tr_name := sh_fn sh; tr_out := w_out w; tr_asserts := w_asr w |} :: rs) sk s'
             | x => x end
         | ISigfpe => TSigfpe
